@@ -288,10 +288,14 @@ fn judge_jwk(entry: &str, j: &Jwk, t: usize, given_private: Option<bool>, v: &mu
     Ok(o) => o,
     Err(e) => return v.v("Jwk::to_json|failed", e),
   };
-  for n in private_names(&pobj) {
+  // one defect, one key: kept member names first, then (only if none) a private value under another name,
+  // then (only if neither) a projection that does not report itself public
+  let kept = private_names(&pobj);
+  let leaks_value = Value::Object(pobj.clone()).to_string().contains("SECRET");
+  for n in &kept {
     v.v(format!("Jwk::to_public|private-member-kept|{n}"), format!("{entry}: projection {}", Value::Object(pobj.clone())));
   }
-  if Value::Object(pobj.clone()).to_string().contains("SECRET") {
+  if kept.is_empty() && leaks_value {
     v.v("Jwk::to_public|private-value-kept", format!("{entry}: projection {}", Value::Object(pobj.clone())));
   }
   if type_index(p.kty()) != t || pobj.get("kty") != Some(&json!(KTY[t])) || type_index(p.params().kty()) != t {
@@ -302,7 +306,7 @@ fn judge_jwk(entry: &str, j: &Jwk, t: usize, given_private: Option<bool>, v: &mu
       v.v(format!("Jwk::to_public|public-parameter-changed|{n}"), format!("{entry}: {:?}", pobj.get(*n)));
     }
   }
-  if !matches!(guard(|| p.is_public()), Ok(true)) {
+  if kept.is_empty() && !leaks_value && !matches!(guard(|| p.is_public()), Ok(true)) {
     v.v("Jwk::to_public|result-not-public", entry.to_string());
   }
   match guard(|| p.thumbprint_sha256_b64()) {
@@ -658,11 +662,12 @@ fn judge(case: &Case) -> Verdict {
         Ok(Err(e)) => v.v("JwkMemStore::generate|supported-key-type-rejected", e.to_string()),
         Ok(Ok(out)) => {
           let obj = object_of(&out.jwk).unwrap_or_default();
-          for n in private_names(&obj) {
-            v.v(format!("JwkMemStore::generate|output-has-private-member-{n}"), Value::Object(obj.clone()).to_string());
-          }
-          if !out.jwk.is_public() {
-            v.v("JwkMemStore::generate|output-not-public", Value::Object(obj.clone()).to_string());
+          let names = private_names(&obj);
+          if !names.is_empty() || !out.jwk.is_public() {
+            v.v(
+              "JwkMemStore::generate|output-has-private-key-material",
+              format!("JwkGenOutput.jwk has private members {names:?}, is_public() = {}", out.jwk.is_public()),
+            );
           }
           if let Err(why) = coherent(&out.jwk, Some(OKP)) {
             v.v("JwkMemStore::generate|kty-differs-from-params-family", why);
@@ -689,8 +694,8 @@ fn judge(case: &Case) -> Verdict {
             v.v(format!("generate_method|{}", p.key()), p.msg);
             label = "panic";
           }
-          Ok(Err(e)) => {
-            v.v("generate_method|fresh-fragment-rejected", e.to_string());
+          Ok(Err(_)) => {
+            // not judged: the property is about what generated documents contain, not about generation succeeding
             label = "rejected";
           }
           Ok(Ok(_)) => {}
@@ -701,8 +706,8 @@ fn judge(case: &Case) -> Verdict {
         private_names_deep(&val, &mut names);
         names.sort();
         names.dedup();
-        if let Some(n) = names.first() {
-          v.v(format!("generate_method|document-has-private-member-{n}"), text.clone());
+        if !names.is_empty() {
+          v.v("generate_method|document-has-private-key-material", format!("private member names {names:?} in the document JSON"));
         }
         let methods = if doc == 0 { core.methods(None).len() } else { iota.methods(None).len() };
         if label == "generated" && methods != i as usize + 1 {
